@@ -31,8 +31,9 @@ def _job(d):
         real = descr.realise(d)
         return descr.compare(d, real), real
     except Exception as e:  # noqa
-        import traceback
-        return [f'harness exception {type(e).__name__}: {e} {traceback.format_exc()[-300:]}'], None
+        from lib.errors import describe, is_library
+        d = describe(e, 300)
+        return [('outcome: the library raised an error the interpretation does not predict: ' if is_library(d) else 'harness exception ') + d], None
 
 
 def run(tier, seed):
